@@ -92,3 +92,16 @@ package table
 //@   modifies *
 //@   ensures[a_re_queued_input_is_put_in_heap_position_before_the_iterator_is_used_again] !m.requeued
 //@ end
+
+//@ # ---- closing a table (C01 "a half-written table is never visible": the flusher appends the NewFile record only after
+//@ # Close returned nil; C15): the last bytes of a table (everything for a table smaller than the write buffer) reach the
+//@ # file only when the buffered writer is flushed and closed, so Close reports success only if that close succeeded.
+//@ # Thin contract: footer layout, bitmap and offset encoding are not under contract here ----------------------------
+//@ # (the writer of a builder is set by the constructor only)
+//@ stable storeBuilder.writer
+//@ func storeBuilder.Close
+//@   prop C01 C15
+//@   focus a_table_is_reported_closed_only_if_its_last_bytes_reached_the_file
+//@   modifies *
+//@   ensures[a_table_is_reported_closed_only_if_its_last_bytes_reached_the_file] err == nil ==> (calls(b.writer.Close) == old(calls(b.writer.Close)) + 1 && lasterrnil(b.writer.Close))
+//@ end
